@@ -202,7 +202,10 @@ func verifC14ThoroughBool(tag string, quick bool) bool {
 // ---- 2. ignoreStatusChanges ----
 
 // verifC14SymMeta puts a symbolic label/annotation shape on o: 0 = none,
-// 1 = {key: v}, 2 = {key: v, "extra": "x"}.
+// 1 = {key: v}, 2 = {key: v, "extra": "x"}, 3 = {key+"-renamed": v} (same
+// number of entries as shape 1, same value, another key: a comparison that
+// looks values up by key without testing presence takes it for shape 1 when v
+// is empty).
 func verifC14SymMeta(o *unstructured.Unstructured, tag string, labels bool, key string, shapes int) (shape int, v string) {
 	if shapes < 0 { // fixed shape -shapes
 		shape = -shapes
@@ -216,6 +219,10 @@ func verifC14SymMeta(o *unstructured.Unstructured, tag string, labels bool, key 
 	set := env.SetAnnotation
 	if labels {
 		set = env.SetLabel
+	}
+	if shape == 3 {
+		set(o, key+"-renamed", v)
+		return shape, v
 	}
 	set(o, key, v)
 	if shape == 2 {
@@ -260,14 +267,21 @@ func VerifC14_CompositeParentUpdateIgnoreStatus() {
 	genOld, genCur := rt.Int64("old-generation"), rt.Int64("cur-generation")
 	verifC14SetGeneration(old, genOld)
 	verifC14SetGeneration(cur, genCur)
-	lShapes, aShapes := 3, 2
+	lShapes, aShapes, oaShapes := 4, 2, 2
 	if !ignore && rt.Tier() == 0 {
 		// without ignoreStatusChanges the old state is not looked at: one shape
-		lShapes, aShapes = -1, -1
+		lShapes, aShapes, oaShapes = -1, -1, -1
 	}
 	olShape, olV := verifC14SymMeta(old, "old-labels", true, "tier", lShapes)
 	clShape, clV := verifC14SymMeta(cur, "cur-labels", true, "tier", 3)
-	oaShape, oaV := verifC14SymMeta(old, "old-annotations", false, "note", aShapes)
+	if oaShapes > 0 && rt.Bool("old-annotation-under-another-key") {
+		oaShapes = -3
+		rt.Cover("ignore-status/annotation-key-renamed")
+	}
+	if olShape == 3 {
+		rt.Cover("ignore-status/label-key-renamed")
+	}
+	oaShape, oaV := verifC14SymMeta(old, "old-annotations", false, "note", oaShapes)
 	caShape, caV := verifC14SymMeta(cur, "cur-annotations", false, "note", aShapes)
 	hasFin := rt.Bool("cur-has-finalizer")
 	if hasFin {
